@@ -10,6 +10,8 @@ void *vf_calloc(size_t a, size_t b, const char *fn, const char *ex);
 void *vf_realloc(void *p, size_t n, const char *fn, const char *ex);
 char *vf_strdup(const char *s, const char *fn, const char *ex);
 void vf_free(void *p);
+/* the wall-clock decompression-bomb heuristic is made deterministic: libhtp sees a clock that never advances */
+int vf_gettimeofday(struct timeval *tv, void *tz);
 #ifdef VF_COST
 void *vf_memcpy(void *d, const void *s, size_t n);
 void *vf_memmove(void *d, const void *s, size_t n);
@@ -21,6 +23,7 @@ void *vf_memmove(void *d, const void *s, size_t n);
 #undef strdup
 #define strdup(s) vf_strdup((s), __func__, #s)
 #define free(p) vf_free(p)
+#define gettimeofday(tv, tz) vf_gettimeofday((tv), (tz))
 #ifdef VF_COST
 #undef memcpy
 #undef memmove
